@@ -1269,7 +1269,7 @@ func (ex *Exec) step(fr *frame, in ssa.Instruction) {
 		ex.check(ex.tt.Sle(ex.c64(0), ln), "makeslice: len out of range")
 		ex.check(ex.tt.Sle(ln, cp), "makeslice: cap out of range")
 		if !cp.IsConst() {
-			if ub := ex.tt.ubound(cp, 0); ub <= 64 {
+			if ub := ex.tt.ubound(cp, 0); ub <= 4 {
 				// small symbolic size: allocate the maximum and keep len/cap symbolic (no fork)
 				o := ex.newObject("make", st.Elem(), int(ub))
 				fr.env[i] = &SliceVal{Obj: o, Off: ex.c64(0), Len: ln, Cap: cp, Elem: st.Elem(), K: o.K}
